@@ -230,3 +230,20 @@ TEXT["C02"].update(
     level=TEXT["C02"]["level"] + " At reply level (handle_discover / handle_request): yiaddr lies in the address set the policies selected for this request (base policy first, then the configured ones); which policy's set that is follows the first-applicable-sibling model of unit policy.")
 TEXT["C09"].update(
     level=TEXT["C09"]["level"] + " At reply level: at a clock reading taken while the request was processed, a client holding an address of the pool it is served from is offered/acknowledged one it holds, and the one it names (DISCOVER: option 50; REQUEST: ciaddr if set, else option 50) when it holds that one -- so the address acknowledged after an offer is the one offered; NoAssignableAddress only when every address of that pool is in use.")
+
+TEXT["C04"].update(
+    level=TEXT["C04"]["level"] + " The message handed to the serialiser satisfies its preconditions (names <= 255 octets, section sizes within the 16-bit counts): proved from the decoder (>= 11 octets per decoded record, so a message of <= 65536 octets has < 5958 records) "
+          "through build_dns_message, recv_in_query, create_in_reply and create_in_error (error replies: client's question, no records, REFUSED/NXDOMAIN/SERVFAIL); the reply slices now start at the decoding of the datagram / TCP frame.",
+    note=TEXT["C04"]["note"].replace("replies handed to the serialiser are pkt_wf. ", "the handler chain behind the listener returns a decoded message or a client-facing error (proved for decoder, listener and ACL pass-through; router/cache/upstream layers not chained). "))
+TEXT["C05"].update(
+    level=TEXT["C05"]["level"] + " Listener: recv_in_query / create_in_error / build_dns_message and both reply paths are total given that the handler chain returns only client-facing errors (the four unreachable!() arms are obligations discharged from that precondition); "
+          "upstream TCP connection: send_tcp_query and send_tcp_reply never panic (D07).")
+TEXT["C07"].update(
+    level=TEXT["C07"]["level"].replace("registering a forwarded query on a shared upstream TCP connection never panics, terminates, never overwrites or loses a waiter in flight and stores the new waiter under a free id;",
+          "TcpNameserver::send_tcp_query (whole function): never panics, the id probing terminates, no waiter in flight is overwritten or lost, the new waiter is stored under a free id, a query is refused only when all 65536 ids are in flight, and -- emission-point precondition of the socket write -- the frame sent upstream carries as its DNS id an id under which THIS query's waiter is registered;"))
+TEXT["C18"].update(
+    level=TEXT["C18"]["level"] + " Engine B additionally drives every sequence of up to 3 allocate_address calls (2 clients x 3 pools, refused calls included) on a file-backed database and requires after each call that a second connection reads exactly what this process reads (every recorded lease is durable at once).")
+TEXT["C19"].update(
+    level=TEXT["C19"]["level"] + " Router-advertisement interval keys: the max arm stores only 4..1800 s, and the min/max cross-check `*min > 3 * *max / 4` is verified with std's Duration-overflow panics as operator preconditions (R9 slices arm_max_interval, arm_min_interval, interval_check).")
+TEXT["C16"].update(
+    note=TEXT["C16"]["note"] + " The hmac Mac comparison surface (verify_slice, verify_truncated_left/right) is stubbed with exact semantics over an uninterpreted 32-octet HMAC.")
